@@ -18,17 +18,12 @@ CLAIMED = {
         "integer-rounding clause; see DESIGN.md C10 for the remaining rules.",
    design="4/C10"),
  "C12": dict(
-   technique="who-writes / who-calls rules, exact character-partition abstract interpretation of the lexer, must-pass-through on the parser",
-   text="Decides the structural facts that make lexing and parsing lossless: Lexer.pos is written only by step() by the "
-        "UTF-8 length of the character at pos; every token's length is pos - start; an abstract run of Lexer::next for "
-        "every atom of the exact character partition (intervals no comparison of the lexer distinguishes) shows every "
-        "call returns a non-empty token or None only at end of input and never panics; every loop of the lexer steps; "
-        "Builder::token is fed only by Parser::bump with the head token; every lexed token is queued; root() leaves its "
-        "loop only at EOF after flushing pending blanks.",
+   technique="accessor roles found by behaviour + who-writes rule; exact character-partition abstract interpretation of the lexer with pos abstracted to the number of consumed characters (exact token length); abstract runs of every Parser method on a sequence/stream/effect-log model (queue invariant); path-sensitive loop-progress graph",
+   text="Decides the structural facts that make lexing and parsing lossless: Lexer.pos is written only by one stepping primitive, by the UTF-8 length of the character at pos; an abstract run of Lexer::next for every atom of the exact character partition shows every call returns a token whose len is exactly pos_after - pos_before > 0 (whatever helper builds it) or None only at end of input, and never panics; the graph of abstract loop-head states of every lexer function has no cycle that does not consume input; for every Parser method (queue lengths 0..2, small arguments, the lexer a stream of fresh tokens) the tokens handed to Builder::token followed by the queue afterwards are exactly the queue before followed by the newly lexed tokens, in order, each once; root() leaves its loop only at EOF after flushing pending blanks.",
    note=TRUST_MIR + "syntree::Builder builds the tree it is told to; char::is_whitespace is Unicode White_Space.",
    design="4/C12"),
  "C14": dict(
-   technique="call-site constant rule, dominance, constant agreement between schema, tokenizer registration and field use",
+   technique="call-site constant rule, constant agreement between schema / tokenizer registration / field use, session summary of open_inner over symbolic assets (effect log, path conditions), path summary of load_bytes, hash-iteration census over the call graph",
    text="Decides the clauses of schedule independence that are visible in the code: the only IndexWriter is created with "
         "exactly one indexing thread; the n-gram tokenizer is registered under the schema's tokenizer name before any use "
         "on every path; both index-creation paths use build_schema(); indexing and querying use the same field; the "
@@ -38,7 +33,7 @@ CLAIMED = {
         "rust-embed iterates assets in a fixed order.",
    design="4/C14"),
  "C15": dict(
-   technique="dominance / must-pass-through over MIR CFG, who-may-write census, slice of the rebuild flag",
+   technique="effect summaries (ordered effect log + path conditions, helpers followed) of open_index and open_inner over a symbolic configuration; who-may-write closure over the call graph; dominance rules for the marker write",
    text="Decides the ordering and ownership facts recovery relies on, on every control-flow path: the marker is written "
         "only after commit and reload succeeded and only when not in memory; only write_meta creates it and only "
         "open_inner calls that; the marker is removed before the index directory is destroyed or recreated; a damaged "
@@ -48,7 +43,7 @@ CLAIMED = {
         "orderings that hold on every path, not sampled crash points.",
    design="4/C15"),
  "C16": dict(
-   technique="path summary of the indexing routine (symbolic document), call-site/slice rules on lookup, static decoding of the shipped data, index-term distinguishability over the shipped constants, exact character-partition run of the word lexer",
+   technique="path summary of the indexing routine (symbolic document, helpers followed), summary of eval::eval on WORD / SENTENCE nodes (scripted syntax tree), call-site/slice rules on lookup, static decoding of the shipped data, index-term distinguishability over the shipped constants, exact character-partition run of the word lexer",
    text="Decides the necessary structural conditions of findability: Db::load_bytes indexes every constant of a document "
         "with its payload and every token, in order (path summary over a symbolic document); lookup decodes and returns "
         "the stored payload of the hit; all 878 shipped constants decode completely; with the tokenizer parameters read "
@@ -57,7 +52,7 @@ CLAIMED = {
    note=TRUST_MIR + "tantivy ranks by BM25 over the n-gram terms; the ranking outcome itself is outside static reach.",
    design="4/C16"),
  "C17": dict(
-   technique="table bijection (constants, statics, match arms, released ids, generator spec), impl-pair agreement, AST attribute rule, static CBOR decoding of shipped data",
+   technique="table bijection (constants, statics, match arms, released ids, generator spec), effect summaries of the hand-written Serialize / Deserialize impls, AST attribute rule, static CBOR decoding of shipped data",
    text="Decides that identifiers are unique, stable (equal to the released table the shipped data was written with) and "
         "bijective with the unit statics and the decode match; that the hand-written Serialize/Deserialize pairs of Derived "
         "and Rational use the same wire type; that no serde attribute alters the wire form of the types a Constant is made "
@@ -65,7 +60,7 @@ CLAIMED = {
    note=TRUST_MIR + "serde_cbor / serde_json / num serde impls and attribute-free derives round-trip (trusted).",
    design="4/C17"),
  "C18": dict(
-   technique="non-interference by control dependence and liveness, who-writes census, call-graph reachability",
+   technique="non-interference by path summary of eval::eval on WORD / SENTENCE nodes with a symbolic describe flag and an arbitrary earlier description list (induction over the list), who-reads / who-writes census, call-graph reachability, shared description-order rule of the binary",
    text="Decides that the describe flag is read at exactly one place; that what depends on it is exactly one unconditional "
         "push of (the looked-up phrase, a clone of the matched constant) and nothing the value is computed from; that "
         "nobody else mutates the descriptions; that evaluation can reach no index or file-system mutation and only holds "
@@ -73,7 +68,7 @@ CLAIMED = {
    note=TRUST_MIR + "tantivy's searcher is read-only (trusted).",
    design="4/C18"),
  "C19": dict(
-   technique="path summary of main (symbolic results, effect log of writes), compared with the specified line per path condition",
+   technique="path summary of main and the binary's own helpers (symbolic results, effect log of writes), compared with the specified line per path condition",
    text="Decides, for 0..2 symbolic query results, that on every path of any::main the writes for an Ok result are exactly "
         "the exact or the 12/12/true decimal rendering, a space iff has_numerator(), and the unit displayed with "
         "!value.is_one(); that an Err result is rendered by term::emit and the loop continues; that the only early exits "
@@ -82,7 +77,7 @@ CLAIMED = {
    note=TRUST_MIR + "Display impls render their values; structopt fills Opts from the command line.",
    design="4/C19"),
  "C01": dict(
-   technique="call-graph effect rule, table extraction, path summaries (symbolic terms + path conditions) of the operator functions with a recognised loop closed form, inductive transducer check of the literal reader",
+   technique="call-graph effect rule, table extraction, path summaries (symbolic terms + path conditions) of the operator functions, inductive one-turn summary of pow's product loop with its closed form, piecewise semantic (grid) comparison of the pow summary with base^exponent, eval-node summary for percentages, inductive bisimulation of the literal reader, shared precedence-stack induction",
    text="Decides the structural and per-path facts exactness rests on: nothing reachable from exact arithmetic touches a float "
         "or a lossy conversion; the operator characters are wired to the matching BigRational operations with operands in order "
         "(lexer run, op() run, dispatch table, 16 forwarding impls); every path of add/sub/mul/div/pow returns exactly the "
@@ -127,7 +122,7 @@ CLAIMED = {
    note=TRUST_MIR + "logos implements longest match on literal tokens (the `dal` backtracking quirk of logos 0.13 is outside this model).",
    design="4/C05"),
  "C06": dict(
-   technique="table extraction, typestate dataflow for the blank counter, offset agreement, finite inductive abstract interpretation of the precedence stack, exact character-partition run for blanks",
+   technique="table extraction, typestate dataflow for the blank counter with consuming/using roles taken from the call graph, summaries of the parser primitives nth/eat/skip/count_skip on an abstract parser state, effect summary of value() for parenthesised groups (helpers followed), finite inductive abstract interpretation of the precedence stack, exact character-partition run for blanks",
    text="Decides the priority order to < +- < */ < ^; that no stale blank count is ever used; that nth and eat agree on the "
         "offset; that a parenthesised group is a node and root-level blanks are not evaluated; that every White_Space "
         "character lexes as a blank; and, inductively over all 15 invariant stacks x 4 priorities, that one turn of the "
@@ -136,7 +131,7 @@ CLAIMED = {
    note=TRUST_MIR + "syntree's close_at wraps everything since the checkpoint. The lexer's `+4` / `-4` signed-number rule is as documented.",
    design="4/C06"),
  "C07": dict(
-   technique="who-may-call census, overflow-site census, inductive product check of the reader against the decimal transducer (all flag states x byte classes, symbolic accumulator), abstract run of the lexer over literal shapes",
+   technique="eval-node summaries (one reader on the literal's own text), overflow-site census over the reader's call tree, inductive bisimulation of the reader with a value-level reference transducer (all reachable code states x byte classes, symbolic N / d / E, loops followed into helpers, state found by type), abstract run of the lexer over literal shapes",
    text="Decides that both routes use one reader on exactly the token text; that all fixed-width counters are checked; that, "
         "with the accumulator standing for an arbitrary N and the counter for an arbitrary d, every turn of the main and "
         "exponent loops performs the decimal transducer's step for every byte value and the final value is (-)N*10^(+-E)/10^d "
@@ -171,7 +166,7 @@ CLAIMED = {
    note=TRUST_MIR + "exact rational arithmetic.",
    design="4/C09"),
  "C11": dict(
-   technique="site census over the call graph with per-site discharge by rules evaluated in the same run (canonical form, integrality, zero-guard summaries, constant divisors, span provenance slices)",
+   technique="site census over the call graph with per-site discharge: rules evaluated in the same run (canonical form, integrality, zero-guard summaries, span provenance), automatic discharge by term-domain exploration (assertion implied on every path; divisor a term that cannot be zero), frozen exceptions; shared lexer termination runs",
    text="Decides that every panicking construct in hand-written code reachable from the entry points is discharged by a "
         "checked rule or is a frozen, commented exception, and that every error span is a node's span or the whole input. "
         "Not decided: i32 overflow beyond the property's stated bounds (45 compiler-inserted overflow assertions are listed), "
